@@ -152,7 +152,12 @@ func mergeRefs(ab *cmdsPair, a, b *cmd) {
 			for _, b := range bl {
 				b.name = storeName
 			}
-		} else if _, found := ab.a.lookup[prefix][bName]; found && ab.b.isRaw {
+		} else if l, found := ab.a.lookup[prefix][bName]; found && ab.b.isRaw {
+			// An object-group from raw may be referenced by multiple
+			// ACL lines from raw. It has already been merged.
+			if prefix == "object-group" && l[0] == refCmd {
+				continue
+			}
 			errlog.Abort("Name clash for '%s %s' from raw", prefix, bName)
 		}
 		isReferenced[refCmd] = true
